@@ -66,6 +66,9 @@ def deciding_keyword(validator, d) -> str:
         return "?"
 
 
+CALL_SCHEMA = apischema.schema(min_props=1, min_items=1, min_len=1)
+
+
 def run_type(i, label, spec, tier, st):
     env_ctx = Ctx(env=dc.build_env(spec))
     if well_formed(spec, env_ctx):
@@ -95,67 +98,78 @@ def run_type(i, label, spec, tier, st):
     first = True
     for ap, al, ar in vectors:
         ctx = case.ctx(ap, False, al)
-        try:
-            method = case.method(ap, False, al)
-        except Exception:
-            st.count("compile_error(C01 reports it)")
-            break
-        try:
-            schema = deserialization_schema(rz.tp, additional_properties=ap, aliaser=dc.IMPL_ALIASERS[al], all_refs=ar)
-            Draft202012Validator.check_schema(schema)
-            validator = Draft202012Validator(schema)
-        except Exception as e:
-            st.violation(
-                {
-                    "label": label,
-                    "type": short(spec),
-                    "options": [ap, al, ar],
-                    "signature": {"kind": "schema_generation", "exc": type(e).__name__, "msg": str(e)[:14] if isinstance(e, TypeError) else "", "nested_flatten": "flat_nested" in label},
-                    "what": f"deserialization_schema / check_schema failed: {e!r}"[:300],
-                    "source": rz.source,
-                }
-            )
-            break
-        k = 2 if (lvl <= 1 and first) else 1
-        for dev, d in enumerate_data(spec, ctx, k=k, wide=first or lvl <= 1):
-            if not in_domain(d, has_set, has_unique):
-                st.count("outside_common_domain")
-                continue
-            if overlapping_patterns and '"pq' in json.dumps(d):
-                st.count("key_matching_two_patterns(first-match vs all-match semantics)")
-                continue
-            kind, out = dc.run_impl(method, d)
-            if kind == "exc":
-                st.count("exception(C01/C03 report it)")
-                continue
+        # second pass: the same type with constraints given at the call (schema=...), to deserialize and to the schema
+        # function alike: another method built from the same compiled factory, another schema; same agreement
+        passes = [None] + ([CALL_SCHEMA] if (first or ap) else [])
+        stop = False
+        for call_schema in passes:
+            if stop:
+                break
             try:
-                valid = validator.is_valid(d)
+                method = case.method(ap, False, al, **({} if call_schema is None else {"schema": call_schema}))
+            except Exception:
+                st.count("compile_error(C01 reports it)")
+                stop = True
+                break
+            try:
+                schema = deserialization_schema(rz.tp, additional_properties=ap, aliaser=dc.IMPL_ALIASERS[al], all_refs=ar, **({} if call_schema is None else {"schema": call_schema}))
+                Draft202012Validator.check_schema(schema)
+                validator = Draft202012Validator(schema)
             except Exception as e:
-                st.violation({"label": label, "signature": {"kind": "validator_exception", "exc": type(e).__name__}, "what": f"jsonschema raised {e!r}"[:300], "datum": repr(d), "harness_error": False, "source": rz.source})
-                continue
-            st.case(dc.shape_of(label), (ap, al, ar), dev, type(d).__name__, kind)
-            if valid != (kind == "ok"):
-                if valid:
-                    errs = dc.impl_errors(out)
-                    loc = errs[0][0] if errs else ()
-                    sig = {"kind": "disagree", "direction": "schema_accepts_deser_rejects", "node": dc.node_at(spec, loc, ctx), "dclass": dc.dclass(dc.get_loc(d, loc))}
-                    what = f"schema accepts {d!r} but deserialize rejects it: {errs[:2]}"
-                else:
-                    kw = deciding_keyword(validator, d)
-                    sig = {"kind": "disagree", "direction": "schema_rejects_deser_accepts", "keyword": kw, "flattened": flattened, "shape": dc.shape_of(label).split("[")[0] if not flattened else "-"}
-                    what = f"deserialize accepts {d!r} -> {out!r} but the schema rejects it (keyword {kw})"
                 st.violation(
                     {
                         "label": label,
                         "type": short(spec),
-                        "options": [ap, al, ar],
-                        "datum": repr(d),
-                        "signature": sig,
-                        "what": what[:400],
-                        "schema": json.dumps(schema)[:1500],
+                        "options": [ap, al, ar] + (["schema=min_props=1,min_items=1,min_len=1"] if call_schema is not None else []),
+                        "signature": {"kind": "schema_generation", "exc": type(e).__name__, "msg": str(e)[:14] if isinstance(e, TypeError) else "", "nested_flatten": "flat_nested" in label},
+                        "what": f"deserialization_schema / check_schema failed: {e!r}"[:300],
                         "source": rz.source,
                     }
                 )
+                stop = True
+                break
+            k = 2 if (lvl <= 1 and first and call_schema is None) else 1
+            for dev, d in enumerate_data(spec, ctx, k=k, wide=(first or lvl <= 1) and call_schema is None):
+                if not in_domain(d, has_set, has_unique):
+                    st.count("outside_common_domain")
+                    continue
+                if overlapping_patterns and '"pq' in json.dumps(d):
+                    st.count("key_matching_two_patterns(first-match vs all-match semantics)")
+                    continue
+                kind, out = dc.run_impl(method, d)
+                if kind == "exc":
+                    st.count("exception(C01/C03 report it)")
+                    continue
+                try:
+                    valid = validator.is_valid(d)
+                except Exception as e:
+                    st.violation({"label": label, "signature": {"kind": "validator_exception", "exc": type(e).__name__}, "what": f"jsonschema raised {e!r}"[:300], "datum": repr(d), "harness_error": False, "source": rz.source})
+                    continue
+                st.case(dc.shape_of(label), (ap, al, ar), dev, type(d).__name__, kind, call_schema is not None)
+                if valid != (kind == "ok"):
+                    if valid:
+                        errs = dc.impl_errors(out)
+                        loc = errs[0][0] if errs else ()
+                        sig = {"kind": "disagree", "direction": "schema_accepts_deser_rejects", "node": dc.node_at(spec, loc, ctx), "dclass": dc.dclass(dc.get_loc(d, loc))}
+                        what = f"schema accepts {d!r} but deserialize rejects it: {errs[:2]}"
+                    else:
+                        kw = deciding_keyword(validator, d)
+                        sig = {"kind": "disagree", "direction": "schema_rejects_deser_accepts", "keyword": kw, "flattened": flattened, "shape": dc.shape_of(label).split("[")[0] if not flattened else "-"}
+                        what = f"deserialize accepts {d!r} -> {out!r} but the schema rejects it (keyword {kw})"
+                    st.violation(
+                        {
+                            "label": label,
+                            "type": short(spec),
+                            "options": [ap, al, ar] + (["schema=min_props=1,min_items=1,min_len=1"] if call_schema is not None else []),
+                            "datum": repr(d),
+                            "signature": sig,
+                            "what": what[:400],
+                            "schema": json.dumps(schema)[:1500],
+                            "source": rz.source,
+                        }
+                    )
+        if stop:
+            break
         first = False
     case.drop()
     dc.periodic_reset(i)
